@@ -196,12 +196,22 @@ func Association[K comparable, V any](arguments ...any) col.AssociationLike[K, V
 	var notation = CDCN()
 	var key K
 	var value V
+	var hasKey bool
 
 	// Process the actual arguments.
 	for _, argument := range arguments {
+		// NOTE: When K and V are the same type the first case matches both the
+		// key and the value, so the key is the first such argument.
 		switch actual := argument.(type) {
 		case K:
-			key = actual
+			if !hasKey {
+				key = actual
+				hasKey = true
+			} else if other, isValue := argument.(V); isValue {
+				value = other
+			} else {
+				key = actual
+			}
 		case V:
 			value = actual
 		default:
